@@ -2669,6 +2669,7 @@ const AUDIT: &str = r####"{
  "8 node-global state": "CLOSED: the shard executors' own transaction state is node-global and is reached by no path of the production handler (source scan: the handler intercepts MULTI / EXEC / DISCARD / WATCH; a queued UNWATCH reaches shard 0 and finds nothing) but IS the state that SimulationHarness / RedisServer / the replicated front end expose (driven; two known findings); the script cache (EVAL / SCRIPT LOAD / EVALSHA inside EXEC vs outside); the ACL manager (ACL SETUSER / DELUSER inside EXEC vs outside); the wall clock (TTL flags after EXEC vs the twin). OPEN: metrics counters (not observable by a client).",
  "9 observations": "CLOSED: every reply of every input, the typed value of every key of the session after every EXEC / DISCARD / close (member by member), which keys carry a deadline after EXEC vs the sequential twin (C05:exec:ttl-differs-from-sequential), the NEXT state of the machine after every (state, input) pair — observed through probes (queue length, error flag, whether the old and the newly named keys are still watched). OPEN: exact TTL values (wall clock), INFO counters.",
  "10 finding signatures": "CLOSED (§10.6) and extended: the two new findings are keyed by cause — the shared-executor finding fires only when the result count is exactly own + captured-foreign with the model predicting each reply; the replicated finding only after a MULTI answered `unknown command` with the command answered in the plain; everything else gets its own signature (C05:x:shared:exec-result-count, C05:replicated-frontend:queued-command-changed-the-store, C05:x:sweep:…, C05:exec:sweep:…, C05:close:…, C05:overflow:…, C05:table:…).",
+ "session 4": "the machines over the M7 REFERENCE executor (Model/Txn7.lean, Props/C05M7.lean; ops `M …`, harness c05m7.rs): bodies, watched keys and foreign commands drawn from ~100 frame templates of the whole command set of Model/Redis.lean (strings, counters, lists, sets, hashes, sorted sets, two-key and multi-key commands, expiry commands with far / reached deadlines), parsed by the REAL parser for the model's op text; connection level through H1 on 1 and 4 shards with foreign commands before WATCH / between WATCH and MULTI / between MULTI and EXEC / during EXEC (lock step) and a deadline of a watched key (every type) made to pass between WATCH and EXEC; executor level on a VIRTUAL clock with C01's full timed generator inside MULTI / EXEC (deadlines just before / at / just past the instant of EXEC, time passing between WATCH, MULTI and EXEC); twin oracle (results, store, nil ⇔ typed value changed, serializability when the foreign keys are disjoint). Schedules: ALL placements of one and of two foreign commands among the await points of EXEC for six bodies with 2–3 store accesses on 1 and 4 shards (1068 per run; two commands in one slot via two lock-step connections) — Props/C05Sched.lean proves the placements are the whole schedule space. OPEN: M7 sessions avoid GETSET / SPOP / RANDOMKEY / non-UTF-8 members (C01's conformance findings and relational replies); exact TTL values are compared at the executor level only; truly parallel shard actors are not driven",
  "11 harness fragility": "CLOSED: the source tree is found through the harness's own Cargo.toml (never a hard-coded /repo); a scan that does not find its anchors is a violation (scan-failed); every WATCH-matrix cell and every decision-table cell must have been driven exactly once (C05:harness:empty-cell, C05:table:empty-cell, probe-unreadable); a reply that never comes is a named outcome; executor calls under catch_unwind report `crash`; the panics of the sweeps are violations, not skips. OPEN: a panic inside a spawned connection task shows as `?connection closed` (compared, so not silent)."
 }"####;
 
@@ -2819,5 +2820,5 @@ pub fn run(a: &Args) {
         let mut r = rng.fork();
         xsession(&mut out, &mut r, None, None, None);
     }
-    out.finish("case = one session. Part A: 6..24 steps on REAL connection handlers (hook H1) sharing one ShardedActorState (1 or 4 shards): modelled client inputs (WATCH, MULTI, data commands GET/SET/INCR/APPEND/DEL/RPUSH/LRANGE/LLEN/PING on 6 keys holding strings (integers, non-integers), lists, hashes, sets and sorted sets (LSET LPOP HSET HDEL SADD SREM ZADD ZREM, EXPIRE / PERSIST, deadlines that pass), run-time failing commands, unknown commands, arity errors, nested MULTI, WATCH in MULTI, EXEC/DISCARD without MULTI, UNWATCH, connection-level commands AUTH/ACL WHOAMI/RESET/CLIENT SETNAME, PUBLISH) interleaved with the other client's writes before WATCH, between WATCH and MULTI, between MULTI and EXEC, and during EXEC (pipeline in lock step with EXEC's store accesses: sampled schedule); part B: 6..24 inputs on a REAL CommandExecutor driven like the shard actor (set_time before every command); first of all the WATCH matrix: every (level: connection 1 shard | connection 4 shards | executor) × (type of the watched key) × (modification) as one scripted session, counted as watchmatrix:<level>:<type>:<modification>:<aborted|proceeded>:value-<changed|same>. Distinct by the full session text; non-trivial iff it contains an EXEC inside MULTI that had a non-empty queue or a watched key");
+    out.finish("case = one session. Part A: 6..24 steps on REAL connection handlers (hook H1) sharing one ShardedActorState (1 or 4 shards): modelled client inputs (WATCH, MULTI, data commands GET/SET/INCR/APPEND/DEL/RPUSH/LRANGE/LLEN/PING on 6 keys holding strings (integers, non-integers), lists, hashes, sets and sorted sets (LSET LPOP HSET HDEL SADD SREM ZADD ZREM, EXPIRE / PERSIST, deadlines that pass), run-time failing commands, unknown commands, arity errors, nested MULTI, WATCH in MULTI, EXEC/DISCARD without MULTI, UNWATCH, connection-level commands AUTH/ACL WHOAMI/RESET/CLIENT SETNAME, PUBLISH) interleaved with the other client's writes before WATCH, between WATCH and MULTI, between MULTI and EXEC, and during EXEC (pipeline in lock step with EXEC's store accesses: sampled schedule); part B: 6..24 inputs on a REAL CommandExecutor driven like the shard actor (set_time before every command); first of all the WATCH matrix: every (level: connection 1 shard | connection 4 shards | executor) × (type of the watched key) × (modification) as one scripted session, counted as watchmatrix:<level>:<type>:<modification>:<aborted|proceeded>:value-<changed|same>. Distinct by the full session text; non-trivial iff it contains an EXEC inside MULTI that had a non-empty queue or a watched key. Part M7 (c05m7.rs): the same two levels with bodies / watched keys / foreign commands from the whole command set of the M7 reference model (connection level: 8..26 steps, time-robust frames, wall clock; executor level: 8..30 steps, virtual clock, C01's timed generator); schedule enumeration: one session per placement of ≤ 2 foreign commands among EXEC's await points for six small bodies");
 }
